@@ -1,6 +1,7 @@
 (* Engine.v — the parser engine of parsley as one interpreter over [pexpr]:
    combinator/{seq,memoize,any,choice,optional,many,sep_by,sentence,single,suppress_error}.go,
-   parser/{empty,end,return_error}.go, text/trim.go, terminal.Rune, parsley/parse.go.
+   parser/{empty,end,return_error}.go, text/trim.go, terminal.Rune and the literal parsers of
+   text/terminal (through Literals.v), parsley/parse.go.
    Open-recursion form: [parse_step]/[seq_step] take the recursive calls as parameters
    and the loops are top-level Fixpoints, so that every theorem is proved per combinator
    under a hypothesis on the recursive calls and lifted by one induction on fuel.
@@ -38,6 +39,36 @@ Definition msg_end : list N :=   (* "was expecting the end of input" *)
   [119;97;115;32;101;120;112;101;99;116;105;110;103;32;116;104;101;32;101;110;100;32;111;102;32;105;110;112;117;116].
 Definition name_valid_input : list N := [97;32;118;97;108;105;100;32;105;110;112;117;116].   (* "a valid input" *)
 
+(* ---- the built-in literal parsers (Literals.v, property C08) as engine terminals ---- *)
+(* the text.Reader the literal parsers read: the same bytes at the same base offset *)
+Definition reader_of (inp : input) : Reader.reader :=
+  {| Reader.r_data := i_data inp; Reader.r_offset := i_offset inp |}.
+Definition lval_of (v : Literals.lit_value) : lval :=
+  match v with
+  | Literals.VInt z => VInt z | Literals.VFloat b => VFloat b | Literals.VStr s => VStr s
+  | Literals.VChar c => VChar c | Literals.VBool b => VBool b | Literals.VNil => VNil | Literals.VDur d => VDur d
+  end.
+Definition cause_of (k : Literals.err_kind) : cause :=
+  match k with Literals.ENotFound nm => CNotFound nm | Literals.EOther m => COther m end.
+(* [Literals.lit_parse] returns an [outcome]: Go panics (the constructors' panics on empty strings,
+   MatchWord's panic on non-ASCII words, getPattern's panic on an expression matching the empty input,
+   regexp.go's group panic) are explicit there.  LiteralProofs.lit_total (C08_total) shows that inside
+   the documented domain ([lit_domain l], bytes < 256, offset <= pos <= offset + len) the outcome is
+   always [Ok].  To keep [term_parse] a TOTAL PURE function (so that [parse_step]'s PTerm case has no
+   outcome of its own) a Panic/OutOfFuel of the literal parser is mapped to the distinguished error
+   below; TermFacts.term_parse_no_panic shows it never occurs for in-domain literals.  OUTSIDE THE
+   DOMAIN THE ENGINE MODEL THEREFORE DOES NOT DESCRIBE THE GO CODE (which panics). *)
+Definition panic_marker : list N :=   (* "<terminal parser panicked>" *)
+  [60;116;101;114;109;105;110;97;108;32;112;97;114;115;101;114;32;112;97;110;105;99;107;101;100;62].
+Definition lit_conv (pos : N) (o : outcome Literals.lit_result) : list node * option perr :=
+  match o with
+  | Ok (Some nd, _) =>        (* the Go parsers return a node with a nil error (LiteralProofs.lit_xor) *)
+    ([NTerm (Literals.ln_token nd) (lval_of (Literals.ln_value nd)) (Literals.ln_pos nd) (Literals.ln_rpos nd)], None)
+  | Ok (None, Some e) => ([], Some (mk_err (Literals.le_pos e) (cause_of (Literals.le_kind e))))
+  | Ok (None, None) => ([], None)                       (* never returned by any parser of Literals.v *)
+  | Panic | OutOfFuel => ([], Some (mk_err pos (COther panic_marker)))
+  end.
+
 (* the terminal parsers: pure functions of the input and the position (no context, no recursion) *)
 Definition term_parse (inp : input) (t : terminal) (pos : N) : list node * option perr :=
   match t with
@@ -47,6 +78,8 @@ Definition term_parse (inp : input) (t : terminal) (pos : N) : list node * optio
                 else ([], Some (mk_err pos (CNotFound (quote_rune ch))))
     | None => ([], Some (mk_err pos (CNotFound (quote_rune ch))))
     end
+  | TLit l =>       (* text/terminal/*.go through the model of C08 *)
+    lit_conv pos (Literals.lit_parse (i_cf inp) (i_cd inp) l (reader_of inp) pos)
   end.
 
 Section Engine.
